@@ -862,7 +862,7 @@ def run(ctx):
         ctx.mark_inconclusive(f'shard {sh}: time budget reached after {done} of {len(mine)} points of the service product')
     # ---- random multi-service mixes
     rng = ctx.subrng('mix')
-    for i in range(ctx.pick(10, 1500)):
+    for i in range(ctx.pick(10, 400)):
         if ctx.out_of_time():
             break
         run_case(ctx, imp, r_desc(rng), f'R/{ctx.seed}/{sh}/{i}')
